@@ -112,7 +112,7 @@ def coq_check_props(prop_id, timeout=1200):
         elif line.startswith("Axioms:"):
             block = []
             printed.append(block)
-        elif block is not None and re.match(r"^[A-Za-z_][\w.']*\s*:", line):
+        elif block is not None and re.match(r"^[A-Za-z_][\w.']*\s*(:.*)?$", line):
             block.append(line.split(":")[0].strip())
         elif block is not None and line.startswith(" "):
             continue
